@@ -185,6 +185,20 @@ fn main() {
         for (n, p) in short { blob(&mut cx, p, &format!("ends-early-{}", n.split('-').take(2).collect::<Vec<_>>().join("-"))); }
     }
 
+    // ---- 0a'. armored artifacts that end too early: every prefix of a cleartext signed message, of an armored message and of
+    //          an armored key, through every armored entry point
+    {
+        use pgp::composed::ArmorOptions;
+        let mut arts: Vec<(&str, Vec<u8>)> = Vec::new();
+        if let Ok(Ok(c)) = guarded(|| CleartextSignedMessage::sign(Rng::new(31), "hello\n- dash\nworld\n", &keys[1].primary_key, &Password::empty())) { if let Ok(a) = c.to_armored_string(ArmorOptions::default()) { arts.push(("cleartext", a.into_bytes())); } }
+        if let Ok(Ok(a)) = guarded(|| SignedPublicKey::from(keys[3].clone()).to_armored_string(ArmorOptions::default())) { arts.push(("public-key", a.into_bytes())); }
+        if let Ok(Some(a)) = guarded(|| { let mut b = pgp::composed::MessageBuilder::from_bytes("", b"payload".to_vec()); b.sign(&keys[1].primary_key, Password::empty(), pgp::crypto::hash::HashAlgorithm::Sha256); b.to_armored_string(Rng::new(32), ArmorOptions::default()).ok() }) { arts.push(("message", a.into_bytes())); }
+        for (name, a) in arts {
+            let step = if thorough || a.len() < 900 { 1 } else { 2 };
+            for cut in (0..a.len()).step_by(step) { blob(&mut cx, a[..cut].to_vec(), &format!("armored-prefix-{name}")); }
+        }
+    }
+
     // ---- 0b. key packets of every algorithm (public and secret certificates): at every offset inside a key packet, a two-octet
     //          field of 0000 / 0001 / 0008 / ffff (MPI bit counts of zero and of one octet, curve-OID lengths, ...), and the 33
     //          octets behind a two-octet field zeroed (an MPI that is empty once its leading zeros are stripped)
